@@ -16,7 +16,7 @@ pub fn run(out: &mut Out, thorough: bool, seed: u64, _extra: &[String]) {
         let scheme = if pi % 2 == 0 { SchemeType::BFV } else { SchemeType::BGV };
         // the first two programs run on the wide-plain-modulus family (t > 2^32), the rest on whatever `setup` draws
         // ... the next two (and every tenth) on chains of bottom-of-range primes (bits(Q) < sum of the primes' bit counts)
-        let s = match if pi < 2 { setup_wide_t(&mut r, thorough, scheme) } else if pi < 4 || pi % 10 >= 8 { setup_low_primes(&mut r, thorough, scheme) } else { setup(&mut r, thorough, scheme) } { Some(s) => s, None => continue };
+        let s = match if pi < 2 { setup_wide_t(&mut r, thorough, scheme) } else if pi < 4 || pi % 10 >= 8 { setup_low_primes(&mut r, thorough, scheme) } else if pi < 6 || pi % 10 == 7 { setup_60(&mut r, scheme) } else { setup(&mut r, thorough, scheme) } { Some(s) => s, None => continue };
         let mut prog = Prog::new(&s, &mut r, 3);
         // fresh budgets (public-key and secret-key encryptions made by Prog::new)
         for it in &prog.pool {
@@ -47,6 +47,8 @@ pub fn run(out: &mut Out, thorough: bool, seed: u64, _extra: &[String]) {
                 if let Ok(c) = std::panic::catch_unwind(std::panic::AssertUnwindSafe(|| s.evaluator.mod_switch_to_new(&base.ct, &pid))) { cands.push(("switched", c)); }
                 if let Ok(c) = std::panic::catch_unwind(std::panic::AssertUnwindSafe(|| s.encryptor.encrypt_zero_new_at(&pid))) { cands.push(("zero-pk", c)); }
                 if let Ok(c) = std::panic::catch_unwind(std::panic::AssertUnwindSafe(|| { let c = s.encryptor.encrypt_zero_symmetric_new_at(&pid); if c.contains_seed() { c.expand_seed(&s.ctx) } else { c } })) { cands.push(("zero-sk", c)); }
+                // (more samples at the single-prime level: the effects looked for are per-coefficient events of probability ~ q / 2^64)
+                if k == 1 { for _ in 0..6 { if let Ok(c) = std::panic::catch_unwind(std::panic::AssertUnwindSafe(|| s.encryptor.encrypt_zero_new_at(&pid))) { cands.push(("zero-pk", c)); } } }
                 for (nm, c) in cands {
                     let v = coef_view(&s, &c);
                     out.case(&format!("budget {}", s.ct_case(&v)), &format!("{}-level-k{}-{}", scheme_name(scheme), k, nm), || budget(&s, &c).to_string());
